@@ -1,7 +1,650 @@
-(* Cesium/CrashProofs.v — lemmas about the mutation-log semantics and the persistence protocol. *)
+(* Cesium/CrashProofs.v — lemmas about the mutation-log semantics (FsLog) and about what a
+   restart sees (Crash.view_of): which calls cannot change the view, and what the
+   Truncate-then-WriteAt index rewrite leaves behind at each of its cut points. *)
 From Coq Require Import List NArith ZArith Bool Arith Lia.
-From Synnax Require Import Cesium.FsLog Cesium.Crash.
+From Synnax Require Import Cesium.FsLog Cesium.Crash Generated.Consts_C02.
 Import ListNotations.
+
+(* ------------------------------------------------------------------ file maps *)
+Lemma fname_eqb_eq : forall a b, fname_eqb a b = true <-> a = b.
+Proof.
+  destruct a, b; simpl; split; intros H; try discriminate; try reflexivity;
+    try (apply N.eqb_eq in H; subst; reflexivity);
+    try (inversion H; subst; apply N.eqb_refl).
+Qed.
+
+Lemma fname_eqb_refl : forall a, fname_eqb a a = true.
+Proof. intros; apply fname_eqb_eq; reflexivity. Qed.
+
+Lemma fname_eqb_neq : forall a b, a <> b -> fname_eqb a b = false.
+Proof.
+  intros a b H. destruct (fname_eqb a b) eqn:E; auto. apply fname_eqb_eq in E. contradiction.
+Qed.
+
+Lemma fname_eq_dec : forall a b : fname, {a = b} + {a <> b}.
+Proof.
+  intros a b. destruct (fname_eqb a b) eqn:E.
+  - left; apply fname_eqb_eq; exact E.
+  - right; intros H; subst; rewrite fname_eqb_refl in E; discriminate.
+Qed.
+
+Lemma fget_fset_same : forall fs f d, fget (fset fs f d) f = Some d.
+Proof.
+  induction fs as [|[g e] r IH]; intros; simpl.
+  - rewrite fname_eqb_refl; reflexivity.
+  - destruct (fname_eqb g f) eqn:E; simpl; rewrite E; auto.
+Qed.
+
+Lemma fget_fset_other : forall fs f g d, f <> g -> fget (fset fs f d) g = fget fs g.
+Proof.
+  induction fs as [|[h e] r IH]; intros f g d Hne; simpl.
+  - rewrite fname_eqb_neq; auto.
+  - destruct (fname_eqb h f) eqn:E; simpl.
+    + apply fname_eqb_eq in E; subst h. rewrite (fname_eqb_neq f g Hne). reflexivity.
+    + destruct (fname_eqb h g); auto.
+Qed.
+
+Lemma fget_fdel_same : forall fs f, fget (fdel fs f) f = None.
+Proof.
+  induction fs as [|[g e] r IH]; intros; simpl; auto.
+  destruct (fname_eqb g f) eqn:E; simpl; auto. rewrite E; auto.
+Qed.
+
+Lemma fget_fdel_other : forall fs f g, f <> g -> fget (fdel fs f) g = fget fs g.
+Proof.
+  induction fs as [|[h e] r IH]; intros f g Hne; simpl; auto.
+  destruct (fname_eqb h f) eqn:E; simpl.
+  - apply fname_eqb_eq in E; subst h. rewrite (fname_eqb_neq f g Hne). auto.
+  - destruct (fname_eqb h g); auto.
+Qed.
 
 Lemma apply_all_app : forall l1 l2 s, apply_all s (l1 ++ l2) = apply_all (apply_all s l1) l2.
 Proof. intros; unfold apply_all; apply fold_left_app. Qed.
+
+Lemma apply_all_cons : forall o l s, apply_all s (o :: l) = apply_all (apply s o) l.
+Proof. reflexivity. Qed.
+
+Lemma apply_all_nil : forall s, apply_all s [] = s.
+Proof. reflexivity. Qed.
+
+(* ------------------------------------------------------------------ which files a call touches *)
+(* the files whose content or existence a call can change *)
+Definition touches (o : fsop) (f : fname) : Prop :=
+  match o with
+  | OMkdir | ORenameDir | ORemoveDir => False
+  | OCreate g | OWrite _ g _ _ | OTrunc g _ | ORemove g => g = f
+  | ORename g h => g = f \/ h = f
+  end.
+
+Lemma apply_files_untouched : forall fs o f, ~ touches o f -> fget (apply_files fs o) f = fget fs f.
+Proof.
+  intros fs o f H. destruct o; simpl in *; auto.
+  - destruct (fget fs f0); auto. apply fget_fset_other; auto.
+  - destruct (fget fs f0); auto. apply fget_fset_other; auto.
+  - destruct (fget fs f0); auto. apply fget_fset_other; auto.
+  - destruct (fget fs f0) eqn:E; auto.
+    rewrite fget_fset_other by tauto. apply fget_fdel_other; tauto.
+  - apply fget_fdel_other; auto.
+Qed.
+
+Definition keeps_dir (o : fsop) : Prop := match o with OMkdir | ORenameDir => False | _ => True end.
+
+Lemma apply_some : forall fs o, o <> ORenameDir -> apply (Some fs) o = Some (apply_files fs o).
+Proof. intros fs o H. destruct o; simpl; auto; contradiction. Qed.
+
+Lemma dget_apply_untouched : forall fs o f,
+  o <> ORenameDir -> ~ touches o f -> dget (apply (Some fs) o) f = fget fs f.
+Proof. intros. rewrite apply_some by auto. simpl. apply apply_files_untouched; auto. Qed.
+
+(* ------------------------------------------------------------------ views *)
+Lemma view_ext : forall fs fs',
+  fget fs FIndex = fget fs' FIndex ->
+  fget fs FMeta = fget fs' FMeta ->
+  (forall p, In p (disk_ptrs (Some fs)) -> read_d (Some fs) p = read_d (Some fs') p) ->
+  view_of (Some fs) = view_of (Some fs').
+Proof.
+  intros fs fs' Hi Hm Hr. unfold view_of, has_meta, disk_ptrs in *. simpl in *.
+  rewrite <- Hi, <- Hm. f_equal. f_equal.
+  apply map_ext_in. intros p Hp. f_equal. apply Hr. exact Hp.
+Qed.
+
+(* a call that touches neither the index, nor meta.json, nor any data file *)
+Definition side_file (f : fname) : Prop :=
+  match f with FCounter | FMetaTmp | FGc _ | FTmp _ => True | _ => False end.
+
+Definition side_op (o : fsop) : Prop :=
+  match o with
+  | OCreate g | OWrite _ g _ _ | OTrunc g _ | ORemove g => side_file g
+  | ORename g h => side_file g /\ side_file h
+  | ORemoveDir => True
+  | _ => False
+  end.
+
+Lemma side_not_touch : forall o f, side_op o -> ~ side_file f -> ~ touches o f.
+Proof.
+  intros o f Hs Hn Ht. destruct o; simpl in *; try contradiction; subst; try contradiction.
+  destruct Hs, Ht; subst; contradiction.
+Qed.
+
+Lemma side_op_view : forall fs o, side_op o -> view_of (apply (Some fs) o) = view_of (Some fs).
+Proof.
+  intros fs o Hs.
+  assert (Hne : o <> ORenameDir) by (intros ->; simpl in Hs; contradiction).
+  rewrite apply_some by auto. symmetry. apply view_ext.
+  - symmetry. apply apply_files_untouched. apply side_not_touch; auto.
+  - symmetry. apply apply_files_untouched. apply side_not_touch; auto.
+  - intros p _. unfold read_d. simpl.
+    rewrite apply_files_untouched; auto. apply side_not_touch; auto.
+Qed.
+
+Lemma side_op_torn : forall o t, side_op o -> side_op (torn o t).
+Proof. intros o t H. destruct o; simpl in *; auto. Qed.
+
+(* creating index.domain / counter.domain / a data file nobody points into *)
+Lemma decode_nil : decode_ptrs [] = [].
+Proof. reflexivity. Qed.
+
+Lemma create_index_view : forall fs, view_of (apply (Some fs) (OCreate FIndex)) = view_of (Some fs).
+Proof.
+  intros fs. simpl. destruct (fget fs FIndex) eqn:E; auto.
+  unfold view_of, has_meta, disk_ptrs. simpl.
+  rewrite fget_fset_same, E. rewrite fget_fset_other by discriminate.
+  f_equal.
+Qed.
+
+(* every pointer on disk designates bytes inside an existing file *)
+Definition disk_inr (d : dirst) : Prop := forall p, In p (disk_ptrs d) -> inrb d p = true.
+
+Lemma read_d_ext_file : forall fs fs' p,
+  fget fs (FData (p_file p)) = fget fs' (FData (p_file p)) ->
+  read_d (Some fs) p = read_d (Some fs') p.
+Proof. intros. unfold read_d. simpl. rewrite H. reflexivity. Qed.
+
+Lemma create_data_view : forall fs k,
+  disk_inr (Some fs) -> view_of (apply (Some fs) (OCreate (FData k))) = view_of (Some fs).
+Proof.
+  intros fs k Hin. simpl. destruct (fget fs (FData k)) eqn:E; auto.
+  symmetry. apply view_ext.
+  - symmetry; apply fget_fset_other; discriminate.
+  - symmetry; apply fget_fset_other; discriminate.
+  - intros p Hp. apply read_d_ext_file.
+    destruct (N.eq_dec (p_file p) k) as [Hk|Hne].
+    + specialize (Hin p Hp). unfold inrb in Hin. simpl in Hin. rewrite Hk, E in Hin. discriminate.
+    + symmetry. apply fget_fset_other. intros H; inversion H; congruence.
+Qed.
+
+(* appending to a data file: the bytes inside the old length stay *)
+Lemma firstn_skipn_app_inside : forall (A : Type) (d x : list A) off n,
+  (off + n <= length d)%nat -> firstn n (skipn off (d ++ x)) = firstn n (skipn off d).
+Proof.
+  intros A d x off n H.
+  rewrite skipn_app. rewrite firstn_app.
+  replace (n - length (skipn off d))%nat with 0%nat by (rewrite skipn_length; lia).
+  simpl. rewrite app_nil_r. reflexivity.
+Qed.
+
+Lemma write_at_end : forall d bs, write_at d (length d) bs = d ++ bs.
+Proof.
+  intros d bs. unfold write_at, pad.
+  replace (length d + length bs - length d)%nat with (length bs) by lia.
+  rewrite firstn_app, firstn_all, Nat.sub_diag. simpl. rewrite app_nil_r.
+  rewrite skipn_all2. 2:{ rewrite app_length, repeat_length. lia. }
+  rewrite app_nil_r. reflexivity.
+Qed.
+
+Lemma append_view : forall fs k data bs b,
+  disk_inr (Some fs) ->
+  fget fs (FData k) = Some data ->
+  view_of (apply (Some fs) (OWrite b (FData k) (N.of_nat (length data)) bs)) = view_of (Some fs).
+Proof.
+  intros fs k data bs b Hin E. simpl. rewrite E. rewrite Nat2N.id, write_at_end.
+  symmetry. apply view_ext.
+  - symmetry; apply fget_fset_other; discriminate.
+  - symmetry; apply fget_fset_other; discriminate.
+  - intros p Hp. unfold read_d. simpl.
+    destruct (N.eq_dec (p_file p) k) as [Hk|Hne].
+    + rewrite Hk, fget_fset_same, E.
+      specialize (Hin p Hp). unfold inrb in Hin. simpl in Hin. rewrite Hk, E in Hin.
+      apply N.leb_le in Hin.
+      destruct (N.eqb (p_size p) 0); auto.
+      assert (Hle : (p_off p + p_size p <= N.of_nat (length (data ++ bs)))%N).
+      { rewrite app_length, Nat2N.inj_add. lia. }
+      apply N.leb_le in Hle. rewrite Hle.
+      assert (Hin' : (p_off p + p_size p <=? N.of_nat (length data))%N = true) by (apply N.leb_le; exact Hin).
+      rewrite Hin'. f_equal. symmetry. apply firstn_skipn_app_inside. lia.
+    + rewrite fget_fset_other; auto. intros H; inversion H; congruence.
+Qed.
+
+Lemma append_inr : forall fs k data bs b,
+  disk_inr (Some fs) ->
+  fget fs (FData k) = Some data ->
+  disk_inr (apply (Some fs) (OWrite b (FData k) (N.of_nat (length data)) bs)).
+Proof.
+  intros fs k data bs b Hin E p Hp. simpl in *. rewrite E in *.
+  unfold disk_ptrs in Hp. simpl in Hp. rewrite fget_fset_other in Hp by discriminate.
+  specialize (Hin p Hp). unfold inrb in *. simpl in *.
+  destruct (N.eq_dec (p_file p) k) as [Hk|Hne].
+  - rewrite Hk, fget_fset_same. rewrite Hk, E in Hin. apply N.leb_le in Hin. apply N.leb_le.
+    rewrite Nat2N.id, write_at_end, app_length, Nat2N.inj_add. lia.
+  - rewrite fget_fset_other; auto. intros H; inversion H; congruence.
+Qed.
+
+Lemma firstn_firstn_le : forall (A : Type) (l : list A) a b, (a <= b)%nat -> firstn a (firstn b l) = firstn a l.
+Proof. intros. rewrite firstn_firstn. f_equal. lia. Qed.
+
+(* ------------------------------------------------------------------ the 26-byte record *)
+Lemma psz_26 : psz = 26%nat.
+Proof. reflexivity. Qed.
+
+Lemma le_bytes_length : forall w n, length (le_bytes w n) = w.
+Proof. induction w; intros; simpl; auto. Qed.
+
+Lemma le_val_le_bytes : forall w n, le_val (le_bytes w n) = (n mod 256 ^ N.of_nat w)%N.
+Proof.
+  induction w; intros n.
+  - simpl. rewrite N.mod_1_r. reflexivity.
+  - cbn [le_bytes le_val]. rewrite IHw.
+    rewrite Nat2N.inj_succ, N.pow_succ_r'.
+    rewrite N.mod_mul_r by (try apply N.pow_nonzero; discriminate).
+    reflexivity.
+Qed.
+
+Lemma firstn_app_exact : forall (A : Type) (a b : list A) n, length a = n -> firstn n (a ++ b) = a.
+Proof. intros; subst. rewrite firstn_app, firstn_all, Nat.sub_diag. simpl. apply app_nil_r. Qed.
+
+Lemma skipn_app_exact : forall (A : Type) (a b : list A) n, length a = n -> skipn n (a ++ b) = b.
+Proof. intros; subst. rewrite skipn_app, skipn_all, Nat.sub_diag. reflexivity. Qed.
+
+Lemma slice_app_skip : forall (a b : bytes) n i j,
+  length a = n -> (n <= i)%nat -> slice (a ++ b) i j = slice b (i - n) (j - n).
+Proof.
+  intros a b n i j Hl Hi. unfold slice.
+  rewrite skipn_app. rewrite skipn_all2 by lia. simpl. rewrite Hl. f_equal. lia.
+Qed.
+
+Lemma slice_head : forall (a b : bytes) n, length a = n -> slice (a ++ b) 0 n = a.
+Proof. intros. unfold slice. simpl. rewrite Nat.sub_0_r. apply firstn_app_exact; auto. Qed.
+
+Lemma i64_u64 : forall z, in_i64 z = true -> i64 (u64 z) = z.
+Proof.
+  intros z H. unfold in_i64 in H. apply andb_true_iff in H. destruct H as [H1 H2].
+  apply Z.leb_le in H1. apply Z.ltb_lt in H2.
+  unfold i64, u64, two63, two64 in *.
+  rewrite Z2N.id by (apply Z.mod_pos_bound; lia).
+  destruct (Z_lt_dec z 0).
+  - replace (z mod 18446744073709551616)%Z with (z + 18446744073709551616)%Z.
+    2:{ apply Zmod_unique with (q := (-1)%Z); lia. }
+    destruct (Z.ltb_spec (z + 18446744073709551616) 9223372036854775808); lia.
+  - rewrite Z.mod_small by lia.
+    destruct (Z.ltb_spec z 9223372036854775808); lia.
+Qed.
+
+Lemma u64_lt : forall z, (u64 z < 256 ^ 8)%N.
+Proof.
+  intros z. unfold u64, two64.
+  assert (H := Z.mod_pos_bound z 18446744073709551616 ltac:(lia)).
+  change (256 ^ 8)%N with (Z.to_N 18446744073709551616). apply Z2N.inj_lt; lia.
+Qed.
+
+Lemma enc_ptr_length : forall p, length (enc_ptr p) = 26%nat.
+Proof. intros. unfold enc_ptr. repeat rewrite app_length. repeat rewrite le_bytes_length. reflexivity. Qed.
+
+Lemma dec_enc_ptr : forall p, wf_ptr p = true -> dec_ptr (enc_ptr p) = p.
+Proof.
+  intros [s e f o z] H. unfold wf_ptr in H. simpl in H.
+  apply andb_true_iff in H; destruct H as [H Hz].
+  apply andb_true_iff in H; destruct H as [H Ho].
+  apply andb_true_iff in H; destruct H as [H Hf].
+  apply andb_true_iff in H; destruct H as [Hs He].
+  apply N.ltb_lt in Hz, Ho, Hf.
+  unfold dec_ptr, enc_ptr. simpl p_s; simpl p_e; simpl p_file; simpl p_off; simpl p_size.
+  rewrite slice_head by apply le_bytes_length.
+  rewrite (slice_app_skip _ _ 8 8 16) by (try apply le_bytes_length; lia).
+  rewrite (slice_app_skip _ _ 8 16 18) by (try apply le_bytes_length; lia).
+  rewrite (slice_app_skip _ _ 8 18 22) by (try apply le_bytes_length; lia).
+  rewrite (slice_app_skip _ _ 8 22 26) by (try apply le_bytes_length; lia).
+  simpl Nat.sub.
+  rewrite slice_head by apply le_bytes_length.
+  rewrite (slice_app_skip _ _ 8 8 10) by (try apply le_bytes_length; lia).
+  rewrite (slice_app_skip _ _ 8 10 14) by (try apply le_bytes_length; lia).
+  rewrite (slice_app_skip _ _ 8 14 18) by (try apply le_bytes_length; lia).
+  simpl Nat.sub.
+  rewrite slice_head by apply le_bytes_length.
+  rewrite (slice_app_skip _ _ 2 2 6) by (try apply le_bytes_length; lia).
+  rewrite (slice_app_skip _ _ 2 6 10) by (try apply le_bytes_length; lia).
+  simpl Nat.sub.
+  rewrite slice_head by apply le_bytes_length.
+  rewrite (slice_app_skip _ _ 4 4 8) by (try apply le_bytes_length; lia).
+  simpl Nat.sub.
+  assert (Hl : slice (le_bytes 4 z) 0 4 = le_bytes 4 z).
+  { unfold slice. simpl skipn. simpl Nat.sub. apply firstn_all2. rewrite le_bytes_length. lia. }
+  rewrite Hl. repeat rewrite le_val_le_bytes.
+  rewrite (N.mod_small (u64 s)) by apply u64_lt.
+  rewrite (N.mod_small (u64 e)) by apply u64_lt.
+  change (256 ^ N.of_nat 2)%N with 65536%N.
+  change (256 ^ N.of_nat 4)%N with two32.
+  rewrite (N.mod_small f) by assumption.
+  rewrite (N.mod_small o) by assumption.
+  rewrite (N.mod_small z) by assumption.
+  rewrite !i64_u64 by assumption. reflexivity.
+Qed.
+
+Lemma encode_ptrs_length : forall l, length (encode_ptrs l) = (26 * length l)%nat.
+Proof.
+  induction l; [reflexivity|]. unfold encode_ptrs in *. cbn [flat_map].
+  rewrite app_length, enc_ptr_length, IHl. simpl length. lia.
+Qed.
+
+Lemma encode_ptrs_app : forall a b, encode_ptrs (a ++ b) = encode_ptrs a ++ encode_ptrs b.
+Proof. intros. unfold encode_ptrs. apply flat_map_app. Qed.
+
+Lemma dec_n_encode : forall l rest,
+  forallb wf_ptr l = true -> dec_n (length l) (encode_ptrs l ++ rest) = l.
+Proof.
+  induction l as [|p l IH]; intros rest H; [reflexivity|].
+  cbn [forallb] in H. apply andb_true_iff in H. destruct H as [Hp Hl].
+  unfold encode_ptrs. cbn [flat_map length dec_n]. fold (encode_ptrs l).
+  rewrite psz_26. rewrite <- app_assoc.
+  rewrite firstn_app_exact by apply enc_ptr_length.
+  rewrite skipn_app_exact by apply enc_ptr_length.
+  rewrite dec_enc_ptr by auto. f_equal. apply IH. exact Hl.
+Qed.
+
+Lemma decode_encode : forall l, forallb wf_ptr l = true -> decode_ptrs (encode_ptrs l) = l.
+Proof.
+  intros l H. unfold decode_ptrs. rewrite encode_ptrs_length, psz_26.
+  replace (26 * length l / 26)%nat with (length l) by (rewrite Nat.mul_comm, Nat.div_mul; lia).
+  rewrite <- (app_nil_r (encode_ptrs l)). apply dec_n_encode. exact H.
+Qed.
+
+Lemma firstn_encode : forall l k, firstn (26 * k) (encode_ptrs l) = encode_ptrs (firstn k l).
+Proof.
+  induction l as [|p l IH]; intros k.
+  - simpl. rewrite !firstn_nil. reflexivity.
+  - destruct k.
+    + rewrite Nat.mul_0_r. reflexivity.
+    + cbn [encode_ptrs flat_map firstn]. fold (encode_ptrs l). fold (encode_ptrs (firstn k l)).
+      replace (26 * S k)%nat with (26 + 26 * k)%nat by lia.
+      rewrite firstn_app. rewrite enc_ptr_length.
+      rewrite firstn_all2 by (rewrite enc_ptr_length; lia).
+      replace (26 + 26 * k - 26)%nat with (26 * k)%nat by lia.
+      rewrite IH. reflexivity.
+Qed.
+
+(* ------------------------------------------------------------------ the index rewrite *)
+Lemma pad_length : forall d n, length (pad d n) = Nat.max (length d) n.
+Proof. intros. unfold pad. rewrite app_length, repeat_length. lia. Qed.
+
+Lemma trunc_to_length : forall d n, length (trunc_to d n) = n.
+Proof. intros. unfold trunc_to. rewrite firstn_length, pad_length. lia. Qed.
+
+Lemma trunc_to_same : forall d, trunc_to d (length d) = d.
+Proof.
+  intros. unfold trunc_to, pad. rewrite Nat.sub_diag. simpl. rewrite app_nil_r. apply firstn_all.
+Qed.
+
+Lemma firstn_pad : forall d n k, (k <= length d)%nat -> firstn k (pad d n) = firstn k d.
+Proof.
+  intros. unfold pad. rewrite firstn_app.
+  replace (k - length d)%nat with 0%nat by lia. simpl. apply app_nil_r.
+Qed.
+
+(* Truncate(26*|P|) then WriteAt(26*sd, encode(P[sd:])) over an index whose first 26*sd
+   bytes already encode P[:sd] leaves exactly encode(P) *)
+Lemma index_rewrite : forall ib P sd,
+  (sd <= length P)%nat ->
+  firstn (26 * sd) ib = encode_ptrs (firstn sd P) ->
+  write_at (trunc_to ib (26 * length P)) (26 * sd) (encode_ptrs (skipn sd P)) = encode_ptrs P.
+Proof.
+  intros ib P sd Hsd Hag.
+  assert (Hlen : (26 * sd <= length ib)%nat).
+  { assert (H := f_equal (@length N) Hag). rewrite firstn_length, encode_ptrs_length, firstn_length in H. lia. }
+  assert (Hbs : length (encode_ptrs (skipn sd P)) = (26 * (length P - sd))%nat).
+  { rewrite encode_ptrs_length, skipn_length. reflexivity. }
+  unfold write_at. rewrite Hbs.
+  replace (26 * sd + 26 * (length P - sd))%nat with (26 * length P)%nat by lia.
+  set (T := trunc_to ib (26 * length P)).
+  assert (HT : length T = (26 * length P)%nat) by apply trunc_to_length.
+  assert (Hpad : pad T (26 * length P) = T).
+  { unfold pad. rewrite HT, Nat.sub_diag. simpl. apply app_nil_r. }
+  rewrite Hpad. rewrite (skipn_all2 (n := (26 * length P)%nat) T) by (rewrite HT; lia). rewrite app_nil_r.
+  unfold T, trunc_to. rewrite firstn_firstn_le by lia.
+  rewrite firstn_pad by lia. rewrite Hag.
+  rewrite <- encode_ptrs_app. rewrite firstn_skipn. reflexivity.
+Qed.
+
+(* ------------------------------------------------------------------ crash images of a call list *)
+Lemma crash_image_0 : forall d es m, crash_image d es m 0 = apply_all d (firstn m es).
+Proof. intros. unfold crash_image. reflexivity. Qed.
+
+Lemma crash_image_app_l : forall d a b m t,
+  (m < length a)%nat -> crash_image d (a ++ b) m t = crash_image d a m t.
+Proof.
+  intros. unfold crash_image.
+  rewrite firstn_app. replace (m - length a)%nat with 0%nat by lia. simpl. rewrite app_nil_r.
+  rewrite nth_error_app1 by lia. reflexivity.
+Qed.
+
+Lemma crash_image_app_r : forall d a b m t,
+  crash_image d (a ++ b) (length a + m) t = crash_image (apply_all d a) b m t.
+Proof.
+  intros. unfold crash_image.
+  rewrite firstn_app. rewrite firstn_all2 by lia.
+  replace (length a + m - length a)%nat with m by lia.
+  rewrite apply_all_app. rewrite nth_error_app2 by lia.
+  replace (length a + m - length a)%nat with m by lia. reflexivity.
+Qed.
+
+Lemma crash_image_end : forall d es t, crash_image d es (length es) t = apply_all d es.
+Proof.
+  intros. unfold crash_image. rewrite firstn_all.
+  assert (H : nth_error es (length es) = None) by (apply nth_error_None; lia).
+  rewrite H. destruct t; reflexivity.
+Qed.
+
+(* window state of image (m, t) of a call list issued from window state w *)
+Definition win_from (w : win) (es : list fsop) (m t : nat) : win :=
+  let w' := fold_left win_step (firstn m es) w in
+  match t, nth_error es m with
+  | S _, Some o => win_torn w' o
+  | _, _ => w'
+  end.
+
+Lemma win_from_app_l : forall w a b m t, (m < length a)%nat -> win_from w (a ++ b) m t = win_from w a m t.
+Proof.
+  intros. unfold win_from.
+  rewrite firstn_app. replace (m - length a)%nat with 0%nat by lia. simpl. rewrite app_nil_r.
+  rewrite nth_error_app1 by lia. reflexivity.
+Qed.
+
+Lemma win_from_app_r : forall w a b m t,
+  win_from w (a ++ b) (length a + m) t = win_from (fold_left win_step a w) b m t.
+Proof.
+  intros. unfold win_from.
+  rewrite firstn_app. rewrite firstn_all2 by lia.
+  replace (length a + m - length a)%nat with m by lia.
+  rewrite fold_left_app. rewrite nth_error_app2 by lia.
+  replace (length a + m - length a)%nat with m by lia. reflexivity.
+Qed.
+
+(* torn lengths the property quantifies over: proper prefixes of the payload *)
+Definition torn_ok (es : list fsop) (m t : nat) : Prop :=
+  t = 0%nat \/ exists o, nth_error es m = Some o /\ (0 < t < payload_len o)%nat.
+
+(* every image of es outside the windows looks like the state before or after es *)
+Definition cuts_ok (d : dirst) (w : win) (es : list fsop) : Prop :=
+  forall m t, (m <= length es)%nat -> torn_ok es m t ->
+    win_class (win_from w es m t) = 0%nat ->
+    view_of (crash_image d es m t) = view_of d \/
+    view_of (crash_image d es m t) = view_of (apply_all d es).
+
+(* every image of es (windows or not, any torn length) looks like the state before es *)
+Definition all_same (d : dirst) (es : list fsop) : Prop :=
+  forall m t, (m <= length es)%nat -> view_of (crash_image d es m t) = view_of d.
+
+Lemma all_same_cuts_ok : forall d w es, all_same d es -> cuts_ok d w es.
+Proof. intros d w es H m t Hm _ _. left. apply H. exact Hm. Qed.
+
+Lemma all_same_end : forall d es, all_same d es -> view_of (apply_all d es) = view_of d.
+Proof. intros d es H. rewrite <- (crash_image_end d es 0). apply H. lia. Qed.
+
+Lemma all_same_nil : forall d, all_same d [].
+Proof.
+  intros d m t Hm. simpl in Hm. assert (m = 0%nat) by lia. subst.
+  unfold crash_image. simpl. destruct t; reflexivity.
+Qed.
+
+Lemma torn_ok_app_l : forall a b m t, (m < length a)%nat -> torn_ok (a ++ b) m t -> torn_ok a m t.
+Proof.
+  intros a b m t Hm [H|[o [H1 H2]]]; [left; auto|right].
+  exists o. rewrite nth_error_app1 in H1 by lia. auto.
+Qed.
+
+Lemma torn_ok_app_r : forall a b m t, torn_ok (a ++ b) (length a + m) t -> torn_ok b m t.
+Proof.
+  intros a b m t [H|[o [H1 H2]]]; [left; auto|right].
+  exists o. rewrite nth_error_app2 in H1 by lia.
+  replace (length a + m - length a)%nat with m in H1 by lia. auto.
+Qed.
+
+Lemma all_same_app : forall d a b, all_same d a -> all_same (apply_all d a) b -> all_same d (a ++ b).
+Proof.
+  intros d a b Ha Hb m t Hm.
+  destruct (Nat.lt_ge_cases m (length a)).
+  - rewrite crash_image_app_l by auto. apply Ha. lia.
+  - replace m with (length a + (m - length a))%nat by lia.
+    rewrite crash_image_app_r. rewrite Hb.
+    + apply all_same_end. exact Ha.
+    + rewrite app_length in Hm. lia.
+Qed.
+
+(* composition: one of the two parts does not change the view as a whole *)
+Lemma cuts_ok_app : forall d w a b,
+  cuts_ok d w a ->
+  cuts_ok (apply_all d a) (fold_left win_step a w) b ->
+  (view_of (apply_all d a) = view_of d \/
+   view_of (apply_all (apply_all d a) b) = view_of (apply_all d a)) ->
+  cuts_ok d w (a ++ b).
+Proof.
+  intros d w a b Ha Hb Hv m t Hm Ht Hc.
+  rewrite apply_all_app.
+  destruct (Nat.lt_ge_cases m (length a)) as [Hlt|Hge].
+  - rewrite crash_image_app_l by auto. rewrite win_from_app_l in Hc by auto.
+    destruct (Ha m t ltac:(lia) (torn_ok_app_l _ _ _ _ Hlt Ht) Hc) as [H|H]; [left; exact H|].
+    destruct Hv as [Hv|Hv]; [left; congruence|right; congruence].
+  - replace m with (length a + (m - length a))%nat in * by lia.
+    rewrite crash_image_app_r. rewrite win_from_app_r in Hc.
+    rewrite app_length in Hm.
+    destruct (Hb (m - length a)%nat t ltac:(lia) (torn_ok_app_r _ _ _ _ Ht) Hc) as [H|H]; [|right; exact H].
+    destruct Hv as [Hv|Hv]; [left; congruence|right; congruence].
+Qed.
+
+(* a single call that cannot change the view, whatever prefix of its payload lands *)
+Definition calm (d : dirst) (o : fsop) : Prop :=
+  forall t, view_of (apply d (torn o t)) = view_of d.
+
+Lemma torn_full : forall o t, (payload_len o <= t)%nat -> torn o t = o.
+Proof. intros o t H. destruct o; simpl in *; auto. rewrite firstn_all2; auto. Qed.
+
+Lemma calm_apply : forall d o, calm d o -> view_of (apply d o) = view_of d.
+Proof. intros d o H. rewrite <- (torn_full o (payload_len o)) at 1 by lia. apply H. Qed.
+
+Lemma all_same_one : forall d o, calm d o -> all_same d [o].
+Proof.
+  intros d o H m t Hm. simpl in Hm.
+  destruct m as [|[|m]]; try lia.
+  - unfold crash_image. simpl. destruct t; [reflexivity|]. apply H.
+  - change 1%nat with (length [o]). rewrite (crash_image_end d [o] t). simpl. apply calm_apply. exact H.
+Qed.
+
+Lemma all_same_cons : forall d o es, calm d o -> all_same (apply d o) es -> all_same d (o :: es).
+Proof.
+  intros d o es Ho Hes. change (o :: es) with ([o] ++ es).
+  apply all_same_app; [apply all_same_one; auto| exact Hes].
+Qed.
+
+Lemma side_op_calm : forall fs o, side_op o -> calm (Some fs) o.
+Proof. intros fs o H t. apply side_op_view. apply side_op_torn. exact H. Qed.
+
+(* ------------------------------------------------------------------ the persist pair *)
+Lemma to_nat_mul_ptr : forall n, N.to_nat (N.of_nat n * ptr_size) = (26 * n)%nat.
+Proof. intros. rewrite N2Nat.inj_mul, Nat2N.id. change (N.to_nat ptr_size) with 26%nat. lia. Qed.
+
+Definition persist_ops (P : list ptr) (sd : nat) : list fsop :=
+  [OTrunc FIndex (N.of_nat (length P) * ptr_size)%N;
+   OWrite true FIndex (N.of_nat sd * ptr_size)%N (encode_ptrs (skipn sd P))].
+
+Lemma fset_same_view : forall fs f d, fget fs f = Some d -> view_of (Some (fset fs f d)) = view_of (Some fs).
+Proof.
+  intros fs f d H. symmetry. apply view_ext.
+  - destruct (fname_eq_dec f FIndex) as [->|Hn]; [rewrite fget_fset_same; auto|symmetry; apply fget_fset_other; auto].
+  - destruct (fname_eq_dec f FMeta) as [->|Hn]; [rewrite fget_fset_same; auto|symmetry; apply fget_fset_other; auto].
+  - intros p _. apply read_d_ext_file.
+    destruct (fname_eq_dec f (FData (p_file p))) as [->|Hn]; [rewrite fget_fset_same; auto|symmetry; apply fget_fset_other; auto].
+Qed.
+
+Lemma persist_result : forall fs ib P sd,
+  fget fs FIndex = Some ib ->
+  (sd <= length P)%nat ->
+  firstn (26 * sd) ib = encode_ptrs (firstn sd P) ->
+  apply_all (Some fs) (persist_ops P sd) =
+    Some (fset (fset fs FIndex (trunc_to ib (26 * length P))) FIndex (encode_ptrs P)).
+Proof.
+  intros fs ib P sd Hi Hsd Hag. unfold persist_ops, apply_all. simpl.
+  rewrite Hi. rewrite fget_fset_same. rewrite !to_nat_mul_ptr.
+  rewrite index_rewrite by auto. reflexivity.
+Qed.
+
+Lemma fset_fset : forall fs f a b g, fget (fset (fset fs f a) f b) g = fget (fset fs f b) g.
+Proof.
+  intros. destruct (fname_eq_dec f g) as [->|Hn].
+  - rewrite !fget_fset_same. reflexivity.
+  - rewrite !fget_fset_other by auto. reflexivity.
+Qed.
+
+Lemma persist_pair_cuts : forall fs w ib P sd,
+  fget fs FIndex = Some ib ->
+  wi_idxlen w = N.of_nat (length ib) ->
+  (sd <= length P)%nat ->
+  firstn (26 * sd) ib = encode_ptrs (firstn sd P) ->
+  cuts_ok (Some fs) w (persist_ops P sd).
+Proof.
+  intros fs w ib P sd Hi Hw Hsd Hag m t Hm Ht Hc.
+  unfold persist_ops in *. simpl in Hm.
+  destruct m as [|[|[|m]]]; try lia.
+  - (* nothing issued yet *)
+    destruct Ht as [->|[o [H1 H2]]].
+    + left. reflexivity.
+    + simpl in H1. inversion H1; subst o. simpl in H2. lia.
+  - (* after the Truncate *)
+    destruct Ht as [->|[o [H1 H2]]].
+    + left. unfold crash_image. simpl. rewrite Hi.
+      unfold win_from in Hc. simpl in Hc. unfold win_class in Hc. simpl in Hc.
+      destruct (wi_dir w && negb (wi_meta w)); [discriminate|].
+      destruct (wi_trunc w); simpl in Hc; [discriminate|].
+      destruct (N.eqb_spec (N.of_nat (length P) * ptr_size) (wi_idxlen w)) as [E|E]; simpl in Hc; [|discriminate].
+      rewrite to_nat_mul_ptr.
+      assert (Hl : (26 * length P)%nat = length ib).
+      { rewrite Hw in E. rewrite <- to_nat_mul_ptr. rewrite E. apply Nat2N.id. }
+      rewrite Hl, trunc_to_same. apply fset_same_view. exact Hi.
+    + exfalso. simpl in H1. inversion H1; subst o.
+      unfold win_from in Hc. simpl in Hc. destruct t; [lia|]. simpl in Hc.
+      unfold win_class in Hc. simpl in Hc.
+      destruct (wi_dir w && negb (wi_meta w)); discriminate.
+  - (* both calls completed *)
+    right. change 2%nat with (length (persist_ops P sd)). unfold persist_ops.
+    rewrite crash_image_end. reflexivity.
+Qed.
+
+Lemma persist_view : forall fs ib P sd,
+  fget fs FIndex = Some ib ->
+  (sd <= length P)%nat ->
+  firstn (26 * sd) ib = encode_ptrs (firstn sd P) ->
+  exists fs', apply_all (Some fs) (persist_ops P sd) = Some fs' /\
+              fget fs' FIndex = Some (encode_ptrs P) /\
+              (forall f, f <> FIndex -> fget fs' f = fget fs f).
+Proof.
+  intros. eexists. split; [apply persist_result; eauto|]. split.
+  - apply fget_fset_same.
+  - intros f Hf. rewrite !fget_fset_other by auto. reflexivity.
+Qed.
